@@ -9,6 +9,7 @@ Texts == {TextV(<<>>), TextV(<<97>>), TextV(<<66>>), TextV(<<97, 98>>), TextV(<<
           TextV(<<65>>), TextV(<<98>>), TextV(<<110, 97, 110>>), TextV(<<78, 97, 78>>), TextV(<<105, 110, 102>>)}
 Days == IF Fine THEN {36525, 36526, 45291, 45292, 45350, 1, 2958465} ELSE {36526, 45291, 45292}
 Dates == {DateV(d, t) : d \in Days, t \in {0, 4210}} \cup {DayV(d) : d \in Days}
-Grid == Nums \cup Texts \cup Dates \cup {Blank, BoolV(FALSE)}
+NumUps == {[k |-> "numup", n |-> n, d |-> 20] : n \in {6, 24, -30, 5}} \cup {[k |-> "numup", n |-> 3, d |-> 1]}
+Grid == Nums \cup NumUps \cup Texts \cup Dates \cup {Blank, BoolV(FALSE)}
 SmallGrid == {Num(n, 20) : n \in {-30, 0, 5, 24}} \cup {DateV(45291, 0), DateV(45291, 4210), DayV(45292), Blank}
 =============================================================================
